@@ -135,5 +135,16 @@ PROPS = {
         "note": "Hang-freedom of display and of the standard library is not modelled; bounded time is checked per case by the harness.",
         "assumptions": ["fmt, hex.Dump and time formatting do not panic on any value"],
     },
+    "C08": {
+        "title": "Ranges, phase ranges and range rates equal the standard's formulas",
+        "design_ref": "DESIGN.md §7 C08, §4.6",
+        "technique": "Lean 4 proof of the exact (scaled-integer) layer incl. 64-bit wrap modelling, invalid markers, MSM4=MSM7; frequency tables regenerated from the source; float layer by exact-rational oracle (partial)",
+        "text": "Kernel-checked theorems: the scaled integers GetAggregateRange/PhaseRange/PhaseRangeRate compute are exactly whole*2^29+frac*2^19+fine (MSM4: fine*32), whole*2^31+frac*2^21+phase (MSM4: *4), "
+                "rough*10000+fine for all field values with non-negative true value (the |-of-shifted-parts is a sum, the uint64(int64()) cast is the identity - proved, wrap case exhibited); an invalid rough value gives zero, "
+                "each invalid fine value falls back to the rough value, an MSM4 and an MSM7 cell encoding the same quantity agree. Frequency tables, markers and scale constants are regenerated from the source and pinned "
+                "to the documented bands. The float layer (metres, cycles, m/s, Hz) is PARTIAL: two or three IEEE operations on exactly representable integers, compared by the harness with exact rational arithmetic to 8 ulp.",
+        "note": "Float results are not theorems (hardware arithmetic); 'to within floating-point rounding' is checked against big.Rat on every generated cell.",
+        "assumptions": ["IEEE-754 binary64 arithmetic; float64(uint64) conversion exact below 2^53"],
+    },
 }
 NOT_APPLICABLE = {}
